@@ -511,7 +511,13 @@ def run_native(prop, step, tier):
         except Exception:
             nr.cases = 1
     else:
-        nr.undecided = f"{step['name']}: no result line (build failure or tool limit):\n" + out[-1500:]
+        # the test ran and the REAL code panicked under it (overflow check, unwrap, assert inside the crate): that is a failed
+        # clause ("no panic"), not a tool problem -- provided the panic site is in the repository's code, not in the hook
+        pm = re.search(r"panicked at ([^\n:]+):(\d+):\d+:\n([^\n]*)", out)
+        if pm and "could not compile" not in out and "/hooks/" not in pm.group(1) and "test result: FAILED" in out:
+            nr.violation = f"the real code panicked during the conformance run: {pm.group(1)}:{pm.group(2)}: {pm.group(3)}"[:1500]
+        else:
+            nr.undecided = f"{step['name']}: no result line (build failure or tool limit):\n" + out[-1500:]
     return nr
 
 
